@@ -521,12 +521,25 @@ class _Canon(ast.NodeTransformer):
                              and not (len(x.args) >= 2 and isinstance(x.args[1], ast.Constant)) for x in ast.walk(n))
         self._it_names = {k: v for k, v in self._it_names.items() if k not in bound}
         self._it_mods = {k for k in self._it_mods if k not in bound}
+        self._module = n
         return self.generic_visit(n)
+
+    def visit_ClassDef(self, n):
+        # class-level tables `NAME = (<literals>)` (constants of the class): `for a, b in self.NAME` in a method is static as well
+        from .normalize import class_tables
+        saved = getattr(self, "_class_tables", None)
+        mod = getattr(self, "_module", None)
+        self._class_tables = class_tables(n, mod) if mod is not None else None
+        n = self.generic_visit(n)
+        self._class_tables = saved
+        return n
 
     def visit_FunctionDef(self, n):
         n = self.generic_visit(n)
         from .normalize import normalize_function
-        return normalize_function(n, getattr(self, "_module_tables", None))
+        tables = dict(getattr(self, "_module_tables", None) or {})
+        tables.update(getattr(self, "_class_tables", None) or {})
+        return normalize_function(n, tables or None)
 
     def visit_IfExp(self, n):
         self.generic_visit(n)
